@@ -820,6 +820,66 @@ def gc_harness(ex):
     return {"record": rec}
 
 
+class _InitPlain(HasTraits):
+    a = Int(1)
+    b = Str("x")
+
+
+class _InitListening(HasTraits):
+    a = Int(1)
+    b = Str("x")
+    seen = List()
+
+    def _a_changed(self, new):
+        self.seen.append(("a", new))
+
+    @__import__("traits.api", fromlist=["on_trait_change"]).on_trait_change("b")
+    def _b_listener(self, new):
+        self.seen.append(("b", new))
+
+    @__import__("traits.api", fromlist=["observe"]).observe("a", post_init=True)
+    def _a_observer(self, event):
+        self.seen.append(("obs", event.new))
+
+
+def init_harness(ex):
+    """has_traits_init (the constructor: HasTraits(**traits)) interpreted on a freshly allocated real object: keyword traits valid,
+    invalid half way, unknown; positional arguments refused; classes with and without declared listeners / observers; success and
+    every error exit follow the 0 / -1 <=> exception convention and are reference-neutral"""
+    cls = [_InitPlain, _InitListening][ex.choice("class", 2)]
+    o = cls.__new__(cls)
+    shape = ex.choice("arguments", 6)
+    args = () if shape != 5 else (1,)
+    kwds = [NULL, {}, {"a": 5, "b": "s"}, {"a": 5, "b": 7}, {"a": "bad"}, {}][shape]
+    it = cenv.new_interp()
+    it.st.rc.clear()
+    problem = None
+    rc = None
+    try:
+        with cenv.python_side_env():
+            rc = it.call("has_traits_init", [o, args, kwds])
+        if rc != 0 and it.st.err is None:
+            problem = "-1 without an exception"
+        if rc == 0 and it.st.err is not None:
+            problem = "0 with an exception set"
+    except MemSafety as e:
+        problem = str(e)
+    ex.note("problem", problem)
+    if problem and os.environ.get("VT_DEBUG_NEUTRAL"):
+        sys.stderr.write("INIT %r\n" % (problem,))
+    ex.check(problem is None, "the constructor path is memory-safe and follows the 0 / -1 <=> exception convention")
+    if problem is None:
+        want_fail = shape in (3, 4, 5)
+        ex.check((rc != 0) == want_fail, "the constructor fails exactly for an invalid keyword value or positional arguments")
+        if rc == 0:
+            ex.check(bool(cenv.hastraits_struct(it, o).flags & cenv.HASTRAITS_INITED), "a successfully constructed object is marked initialised")
+            if shape == 2:
+                ex.check(o.a == 5 and o.b == "s", "keyword traits are assigned")
+        bad = [b_ for b_ in neutral(it, NULL) if "NoneType" not in b_]
+        ex.check(not bad, "the constructor path is reference-neutral on success and on every error exit")
+    return {"shape": shape}
+
+
 def notify_mutation_harness(ex):
     """a handler that removes itself (or adds another one) while call_notifiers is dispatching"""
     trait_level = ex.flag("trait_level_handler_too")
@@ -948,6 +1008,10 @@ def obligations(tier, build):
                                       "receivers": "Int / List / Property / Any trait records, a HasTraits object with handlers"},
                               leverage="integer arguments (table indices, modes, flags); otherwise choice feasibility",
                               max_paths=30000, path_wall_s=120))
+    obs.append(Obligation("access/init", init_harness, stubs=STUBS, witness_every=0,
+                          bounds={"classes": ["plain", "with static handler, decorated listener, post_init observer"],
+                                  "arguments": ["kwds NULL", "{}", "valid", "invalid second value", "invalid first value", "positional"]},
+                          leverage="choice feasibility only (heap objects); ghost reference counts"))
     obs.append(Obligation("gc/traverse-clear", gc_harness, stubs=STUBS, witness_every=0,
                           bounds={"records": ["Int / List / Property / Any trait records with notifier lists", "a HasTraits object with handlers"],
                                   "visit callback": "returns non-zero at the k-th call, any k"},
